@@ -18,13 +18,24 @@ MUL = {"multiplication_mul": "*", "multiplication_div": "/", "multiplication_mod
 MACROS = {"map", "filter", "all", "exists", "exists_one"}
 
 
+_CHAIN = {"expr", "conditionalor", "conditionaland", "relation", "addition", "multiplication", "unary", "member", "primary"}
+
+
 class Unsupported(Exception):
     pass
 
 
+ALLOPS = {**REL, **ADD, **MUL}
+
+
 def conv(t: Any, keep_parens: bool = False) -> Node:
-    d = t.data
+    d = str(t.data)
     ch = t.children
+    # fast path: single-child precedence chain
+    while len(ch) == 1 and d in _CHAIN:
+        t = ch[0]
+        d = str(t.data)
+        ch = t.children
     if d == "expr":
         if len(ch) == 1:
             return conv(ch[0], keep_parens)
@@ -37,7 +48,7 @@ def conv(t: Any, keep_parens: bool = False) -> Node:
         if len(ch) == 1:
             return conv(ch[0], keep_parens)
         opn, right = ch
-        op = {**REL, **ADD, **MUL}[opn.data]
+        op = ALLOPS[str(opn.data)]
         return Node("bin", None, op, conv(opn.children[0], keep_parens), conv(right, keep_parens))
     if d == "unary":
         if len(ch) == 1:
@@ -58,7 +69,12 @@ def conv(t: Any, keep_parens: bool = False) -> Node:
     if d == "member_index":
         return Node("index", None, conv(ch[0], keep_parens), conv(ch[1], keep_parens))
     if d == "member_object":
-        raise Unsupported("message construction")
+        recv = conv(ch[0], keep_parens)
+        fields = []
+        if len(ch) == 2:
+            items = ch[1].children
+            fields = [(str(items[i]), conv(items[i + 1], keep_parens)) for i in range(0, len(items), 2)]
+        return Node("obj", None, recv, tuple(fields))
     if d == "literal":
         tok = ch[0]
         text = str(tok)
@@ -72,7 +88,8 @@ def conv(t: Any, keep_parens: bool = False) -> Node:
     if d == "dot_ident":
         return Node("raw", None, "." + str(ch[0]), "U", P_PRIMARY, "dot_ident")
     if d == "dot_ident_arg":
-        raise Unsupported("dot_ident_arg")
+        args = [conv(x, keep_parens) for x in ch[1].children] if len(ch) == 2 else []
+        return Node("call", None, "." + str(ch[0]), *args)
     if d == "ident_arg":
         name = str(ch[0])
         args = [conv(x, keep_parens) for x in ch[1].children] if len(ch) == 2 else []
@@ -122,6 +139,8 @@ def sexpr(n: Node) -> Any:
         return ["field", sexpr(n.a[0]), n.a[1]]
     if n.k == "has":
         return ["call", "has", ["field", sexpr(n.a[0]), n.a[1]]]
+    if n.k == "obj":
+        return ["obj", sexpr(n.a[0])] + [[f, sexpr(v)] for f, v in n.a[1]]
     if n.k == "list":
         return ["list"] + [sexpr(x) for x in n.a]
     if n.k == "map":
